@@ -20,6 +20,14 @@ def handleBuiltin (st : St) (b : String) (parts : List (List String)) : String :
        | _ => "skip unknown-op")
     | [head, path, arg, out] =>
       (match head.head? with
+       -- HS: two unbuffered Sets on one sequence, judged by the harness (test-level observation)
+       | some "HS" =>
+         (match out with
+          | ["kept"] => "agree"
+          | ["err"] => "skip history-step-refused"
+          | ["changed"] => "dev-viol an element stored by an earlier Set changed"
+          | ["panic"] => "dev-viol panic"
+          | _ => "skip malformed")
        | some "C" => stringsOpCmp st b head path arg out
        | some "LC" => stringsOpLC st b head path arg out
        | _ => "skip unknown-op")
